@@ -158,6 +158,16 @@ thread_local! {
     pub static MID_HANDSHAKE: std::cell::Cell<Option<(usize, u8)>> = const { std::cell::Cell::new(None) };
 }
 thread_local! {
+    /// when set, the version check is first switched to the opposite of the case's setting and then to the setting itself
+    /// (the last call decides); the op line then says `v10` (on, then off) or `v01` (off, then on)
+    pub static VERIFY_TOGGLE: std::cell::Cell<bool> = const { std::cell::Cell::new(false) };
+}
+pub fn v_tok(verify: bool) -> &'static str {
+    match (VERIFY_TOGGLE.with(|t| t.get()), verify) { (false, true) => "v1", (false, false) => "v0", (true, true) => "v01", (true, false) => "v10" }
+}
+/// parse `v0 v1 v10 v01`: the effective setting; sets the toggle for the run that follows
+pub fn parse_v(v: &str) -> bool { VERIFY_TOGGLE.with(|t| t.set(v.len() == 3)); v == "v1" || v == "v01" }
+thread_local! {
     /// the InSim version the handshake's IS_ISI asks for (default: the crate's own)
     pub static HS_VERSION: std::cell::Cell<Option<u8>> = const { std::cell::Cell::new(None) };
 }
@@ -193,6 +203,7 @@ pub fn run_reads(fl: Flavour, compressed: bool, verify: bool, events: Vec<Ev>, w
             let sc = script.clone();
             let r = guard(std::panic::AssertUnwindSafe(move || {
                 let mut f = insim::net::blocking_impl::Framed::new(Box::new(tr2), Codec::new(mode_of(compressed)));
+                if VERIFY_TOGGLE.with(|t| t.get()) { f.verify_version(!verify); }
                 f.verify_version(verify);
                 if let Some(r) = HANDSHAKE.with(|h| h.get()) {
                     let _ = f.handshake(hs_isi(r));
@@ -236,7 +247,8 @@ pub fn run_reads(fl: Flavour, compressed: bool, verify: bool, events: Vec<Ev>, w
                 RT.with(|rt| {
                     rt.block_on(async move {
                         let mut f = insim::net::tokio_impl::Framed::new(Box::new(tr2.clone()), Codec::new(mode_of(compressed)));
-                        f.verify_version(verify);
+                        if VERIFY_TOGGLE.with(|t| t.get()) { f.verify_version(!verify); }
+                f.verify_version(verify);
                         if let Some(r) = HANDSHAKE.with(|h| h.get()) {
                             let _ = f.handshake(hs_isi(r), std::time::Duration::from_secs(5)).await;
                             let mut s = sc.lock().unwrap(); s.trace.clear(); s.out.clear(); s.wlog.clear(); s.write_calls.clear();
@@ -534,7 +546,7 @@ pub struct Case {
 pub fn read_case(ctx: &mut Ctx, prop: &str, case: &Case) -> Vec<String> {
     let (tbl_s, tbl) = class_table(case.compressed, &case.frames);
     let r = run_reads(case.fl, case.compressed, case.verify, case.events.clone(), case.wscript.clone());
-    let mut op = format!("framed.read {} {} {} {} {}", case.fl.tok(), mode_tok(case.compressed), if case.verify { "v1" } else { "v0" }, tbl_s, script_text(&r.log));
+    let mut op = format!("framed.read {} {} {} {} {}", case.fl.tok(), mode_tok(case.compressed), v_tok(case.verify), tbl_s, script_text(&r.log));
     if !case.wscript.is_empty() { op.push_str(&format!(" ws={}", wscript_text(&case.wscript))); } else { op.push_str(&hs_suffix()); }
     let res = if r.trace.is_empty() { "-".to_string() } else { r.trace.join(";") };
     ctx.case(&op, &res);
@@ -553,7 +565,7 @@ pub fn read_case(ctx: &mut Ctx, prop: &str, case: &Case) -> Vec<String> {
     if valid && stream == delivered && matches!(case.events.last(), Some(Ev::Eof)) {
         let exp = expected_trace(case.compressed, case.verify, &case.frames, &tbl);
         let got = fault_free(&r.trace);
-        let mut replay = format!("conn.case {} {} {} {} {}", case.fl.tok(), mode_tok(case.compressed), if case.verify { "v1" } else { "v0" },
+        let mut replay = format!("conn.case {} {} {} {} {}", case.fl.tok(), mode_tok(case.compressed), v_tok(case.verify),
             case.frames.iter().map(|f| hex(f)).collect::<Vec<_>>().join("+"), script_text(&case.events));
         if !case.wscript.is_empty() { replay.push_str(&format!(" ws={}", wscript_text(&case.wscript))); } else { replay.push_str(&hs_suffix()); }
         if got != exp && !exp.contains(&"abort".to_string()) {
@@ -609,7 +621,7 @@ pub fn replay_line(ctx: &mut Ctx, prop: &str, l: &str) -> bool {
             let case = Case {
                 fl: if *fl == "tokio" { Flavour::Tokio } else { Flavour::Blocking },
                 compressed: *m == "c",
-                verify: *v == "v1",
+                verify: parse_v(v),
                 frames: if *frames == "-" { vec![] } else { frames.split('+').map(unhex).collect() },
                 events: parse_events(evs),
                 wscript: ws,
@@ -619,6 +631,7 @@ pub fn replay_line(ctx: &mut Ctx, prop: &str, l: &str) -> bool {
             PREWRITE.with(|p| *p.borrow_mut() = None);
             MID_HANDSHAKE.with(|m| m.set(None));
             HS_VERSION.with(|h| h.set(None));
+            VERIFY_TOGGLE.with(|t| t.set(false));
             true
         },
         ["framed.read", fl, m, v, tbl, evs] | ["framed.read", fl, m, v, tbl, evs, _] => {
@@ -626,7 +639,7 @@ pub fn replay_line(ctx: &mut Ctx, prop: &str, l: &str) -> bool {
             let (ws, hs) = parse_seventh(w.get(6));
             HANDSHAKE.with(|h| h.set(hs));
             let frames: Vec<Vec<u8>> = if *tbl == "-" { vec![] } else { tbl.split(';').map(|kv| unhex(kv.split('=').next().unwrap())).collect() };
-            let r = run_reads(if *fl == "tokio" { Flavour::Tokio } else { Flavour::Blocking }, *m == "c", *v == "v1", parse_events(evs), ws.clone());
+            let r = run_reads(if *fl == "tokio" { Flavour::Tokio } else { Flavour::Blocking }, *m == "c", parse_v(v), parse_events(evs), ws.clone());
             let (tbl_s, _) = class_table(*m == "c", &frames);
             let mut op = format!("framed.read {} {} {} {} {}", fl, m, v, tbl_s, script_text(&r.log));
             if !ws.is_empty() { op.push_str(&format!(" ws={}", wscript_text(&ws))); } else { op.push_str(&hs_suffix()); }
@@ -634,6 +647,7 @@ pub fn replay_line(ctx: &mut Ctx, prop: &str, l: &str) -> bool {
             PREWRITE.with(|p| *p.borrow_mut() = None);
             MID_HANDSHAKE.with(|m| m.set(None));
             HS_VERSION.with(|h| h.set(None));
+            VERIFY_TOGGLE.with(|t| t.set(false));
             ctx.case(&op, &if r.trace.is_empty() { "-".to_string() } else { r.trace.join(";") });
             true
         },
@@ -877,6 +891,16 @@ pub fn generate_reads(ctx: &mut Ctx, prop: &str) {
                                 let _ = read_case(ctx, prop, &Case { fl, compressed, verify, frames, events: evs, wscript: vec![] });
                             }
                         }
+                    }
+                    // the setting is whatever the last call to the setter said: switched the other way first, then to `verify`
+                    for v in [0usize, 8, 9, 10, 255] {
+                        let frames = vec![ping.clone(), pool.ver[v].clone(), ping.clone()];
+                        let style = ctx.rng.next();
+                        let mut evs = random_partition(&mut ctx.rng, &frames.concat(), style);
+                        evs.push(Ev::Eof);
+                        VERIFY_TOGGLE.with(|t| t.set(true));
+                        let _ = read_case(ctx, prop, &Case { fl, compressed, verify, frames, events: evs, wscript: vec![] });
+                        VERIFY_TOGGLE.with(|t| t.set(false));
                     }
                     // … and of whatever else the connection did before: the handshake (request id 0 as the builder sends it, and non-zero)
                     for hs in [0u8, 1, 255] {
